@@ -90,6 +90,16 @@ class Walks(Suite):
                             a = rng.randint(1, hi) if (complete or rng.random() < 0.6) else 5
                             script.append([e, a])
                         cases.append({"n": n, "complete": complete, "script": script})
+        # long removal-heavy walks on tiny universes: states with a single ranked element, re-insertions, gaps
+        for n in (2, 3, 4):
+            for steps in (25, 60, 120):
+                for _ in range(reps * 4):
+                    script = []
+                    for _ in range(steps):
+                        e = rng.randrange(n)
+                        a = 5 if rng.random() < 0.45 else rng.randint(1, 4)
+                        script.append([e, a])
+                    cases.append({"n": n, "complete": False, "script": script})
         return cases
 
     def run(self, case):
